@@ -326,3 +326,34 @@ OUTSIDE = ['filesystems whose mtime granularity is coarser than the TIMESTAMP se
            'tree-level update is C03)']
 STUBS = ['gemato.cli.ManifestRecursiveLoader -> recorder', 'gemato.cli.datetime -> clock stub',
          'datetime subclass modelling timestamp() with a symbolic offset']
+
+
+def validate(seed, tier):
+    """real filesystem, real TZ: `update --incremental` equals a full update for files
+    modified 1 h after the TIMESTAMP with unchanged size, under UTC, UTC+9 and UTC-8"""
+    import calendar
+    from vf.realcheck import RealTree, gemato
+    agree, details, errs = 0, [], []
+    ts = calendar.timegm((2020, 1, 2, 3, 4, 5))
+    for tz in ('UTC', 'Asia/Tokyo', 'America/Los_Angeles', 'VFX+08:00:00', 'VFX-09:30:00'):
+        res = []
+        for inc in (True, False):
+            t = RealTree()
+            try:
+                t.write('a', b'xx', mtime=ts + 3600)       # rewritten after the TIMESTAMP
+                t.write('b', b'yyy', mtime=ts - 3600)      # untouched
+                t.write('Manifest', b'TIMESTAMP 2020-01-02T03:04:05Z\n'
+                        b'DATA a 2 MD5 00000000000000000000000000000000\n'
+                        b'DATA b 3 MD5 f0a9c0e0ce1d2b1c2f0cc40cbe2b6a5e\n')
+                args = ['update', '-H', 'MD5'] + (['-i'] if inc else []) + [t.root]
+                rc, out = gemato(*args, env={'TZ': tz})
+                res.append([ln for ln in t.read('Manifest').decode().splitlines()
+                            if ln.startswith('DATA a')])
+            finally:
+                t.close()
+        if res[0] == res[1] and '0000000000' not in res[0][0]:
+            agree += 1
+        else:
+            errs.append(f'TZ={tz}: incremental {res[0]} vs full {res[1]}')
+    details.append({'zones': 5})
+    return agree, details, errs
